@@ -47,7 +47,14 @@ def expr(fn, ref, depth=12, keep_casts=False, _memo=None):
                 ix = s[1:-1]
                 if k == 0:
                     if ix != "#0":
-                        e = ("ptradd", e, expr(fn, ix, depth - 1, keep_casts), d.get("elsize", 0))
+                        bi = fn.inst(d["base"])
+                        ixe = expr(fn, ix, depth - 1, keep_casts)
+                        if bi is not None and bi.op == "getelementptr" and e[0] == "idx" and e[2][0] == "c" and ixe[0] == "c" and \
+                                isinstance(e[2][1], int) and isinstance(ixe[1], int) and bi.d.get("resty") and bi.d.get("resty") == d.get("srcty"):
+                            # &t[j] + n with both of the element type is &t[j + n] (how initialiser lists address their elements)
+                            e = ("idx", e[1], ("c", e[2][1] + ixe[1]))
+                        else:
+                            e = ("ptradd", e, ixe, d.get("elsize", 0))
                 else:
                     e = ("idx", e, expr(fn, ix, depth - 1, keep_casts))
             else:
